@@ -288,7 +288,7 @@ theorem hist_ref_snapshot (f : Nat) (s : HSt α) (i j n : Nat) (xs : List α) (h
 For endless sources "enough fuel always exists" is false (Python itself never returns from
 `list(Stream(1, 2))`, `Stream(1, 2).take(inf)` or from a `filter` that rejects a whole period), so
 the refinement is stated from the model's side: *whenever the model returns* (`step f … = some`,
-a run without `none`), for whatever fuel `f`.  `PRel E st sp`: every model object denotes — as an
+a run without `none`), for whatever fuel `f`.  `PRel false E st sp`: every model object denotes — as an
 eventually periodic sequence `pden E it : LSeq`, up to re-folding of the period (`LSeq.Eqv`) — the
 specification object with the same pool index; every tee hub still distributes its sequence. -/
 
@@ -303,18 +303,19 @@ theorem seq_eqv_sound {s t : LSeq α} (h : LSeq.Eqv s t) :
 sources: whenever the model's step returns, the list model makes the same step — same return value
 / exception — and the resulting states are related again.  (And so: where the list model says "never
 returns" — `list()` / `take(inf)` of an endless sequence — the model does not return either.) -/
-theorem periodic_step_refines {E : List (LSeq α)} {st : St α} {sp : SPool α} (R : PRel E st sp) (op : Op α)
+theorem periodic_step_refines {E : List (LSeq α)} {st : St α} {sp : SPool α} (R : PRel false E st sp) (op : Op α)
     {f : Nat} {st' : St α} {o : Obs α} (h : step f st op = some (st', o)) :
-    ∃ E' sp', specStep sp op = some (sp', o) ∧ PRel E' st' sp' := step_sound R op f st' o h
+    ∃ E' sp', specStep sp op = some (sp', o) ∧ PRel false E' st' sp' :=
+  step_sound R op (opLive_false sp op) f st' o h
 
 /-- **C03.6c (`take` / `peek` / `next` / `list()` on any iterator)** whenever `Stream.take` returns —
 any count, any iterator built from finite and periodic leaves, tee outputs, map / filter / chain /
 skip / limit wrappers — it returns what `specTake` returns on (any representation of) the sequence the
 iterator denotes, and leaves an iterator denoting the rest. -/
 theorem periodic_take_refines {E : List (LSeq α)} {f : Nat} {h : Heap α} {it : It α} {c : Cnt}
-    {h' : Heap α} {it' : It α} {o : Obs α} (hr : takeIt f h it c = some (h', it', o)) (hH : PHeapOK E h)
-    (hW : WF h it) {s : LSeq α} (hs : LSeq.Eqv s (pden E it)) :
-    ∃ s', specTake s c = some (s', o) ∧ LSeq.Eqv s' (pden E it') ∧ PHeapOK E h' ∧ WF h' it' := by
+    {h' : Heap α} {it' : It α} {o : Obs α} (hr : takeIt f h it c = some (h', it', o)) (hH : PHeapOK false E h)
+    (hW : WF false E h it) {s : LSeq α} (hs : LSeq.Eqv s (pden E it)) :
+    ∃ s', specTake s c = some (s', o) ∧ LSeq.Eqv s' (pden E it') ∧ PHeapOK false E h' ∧ WF false E h' it' := by
   obtain ⟨s', a, b, c', d, _⟩ := takeIt_sound hr hH hW hs
   exact ⟨s', a, b, c', d⟩
 
